@@ -108,9 +108,6 @@ class HTMLParser(object):
         self.tree = tree(namespaceHTMLElements)
         self.errors = []
 
-        self.phases = {name: cls(self, self.tree) for name, cls in
-                       _phases.items()}
-
     def _parse(self, stream, innerHTML=False, container="div", scripting=False, **kwargs):
 
         self.innerHTMLMode = innerHTML
@@ -127,6 +124,10 @@ class HTMLParser(object):
 
     def reset(self):
         self.tree.reset()
+        # the phase objects hold per-document state (pending table text, the
+        # swapped whitespace handler): every parse starts from new ones
+        self.phases = {name: cls(self, self.tree) for name, cls in
+                       _phases.items()}
         self.firstStartTag = False
         self.errors = []
         self.log = []  # only used with debug mode
